@@ -42,6 +42,6 @@ func init() {
 		},
 		Explain: "BOUNDED over specifications (the corpus in coverage.bounded), complete within each instance: for the package the real generator emits for each corpus specification, NextToken is proved - for every input text, relative to the abstract cursor contract of the emitted reader - to return the longest-run token at the first position that is not skipped (terminals WS, EOL, COMMENT; blanks no token matches), the terminal owning the state reached, the exact lexeme and the position of its first character, a lexical error if the state reached is not accepting, and end of input after the last token, also when the text does not end in a newline. The emitted reader itself (template text) is compared with that cursor contract by a bounded conformance run inside the emitted package.",
 		Lemmas:  []string{"L-PREFIX (the longest run is unique: see C05)"},
-		Trusted: []string{"text/template executes the template as documented", "A-LEXLEN, A-NONUL for the emitted reader"},
+		Trusted: []string{"text/template executes the template as documented", "A-LEXLEN, A-NONUL, A-READER for the emitted reader: the property says 'any UTF-8 input', but the emitted two-half reader uses the NUL byte as its end marker (a NUL in the input ends it), returns a wrong lexeme for a token longer than one buffer half (4096 bytes; observed from 8192), treats a short read as the end of input, and New fails with io.EOF on an empty input (reported by a seeding agent, reproduced by it on the unchanged tree): inputs with a NUL byte, tokens longer than 4096 bytes, short-reading readers and the empty input are OUTSIDE what this check decides"},
 	})
 }
